@@ -166,6 +166,19 @@ type c05net struct {
 	nodes []*c05node
 	sent  []c05sent
 	drop  func(from, to int, m *pbv1.QBFTConsensusMsg) bool
+	rewr  func(from int, frame []byte) []byte // a Byzantine member's outgoing frames
+	q     chan c05sent // deliveries are serialised in send order: a long verification cannot be overtaken
+}
+
+func (n *c05net) dispatch(ctx context.Context) {
+	for {
+		select {
+		case <-ctx.Done():
+			return
+		case s := <-n.q:
+			n.nodes[s.To].host.inject(n.nodes[s.From].host.id, s.Frame)
+		}
+	}
 }
 
 func (n *c05net) deliver(from int, to peer.ID, frame []byte) {
@@ -178,6 +191,9 @@ func (n *c05net) deliver(from int, to peer.ID, frame []byte) {
 	if ti < 0 {
 		return
 	}
+	if n.rewr != nil {
+		frame = n.rewr(from, frame)
+	}
 	dropped := false
 	if m, err := c05unframe(frame); err == nil && n.drop != nil {
 		dropped = n.drop(from, ti, m)
@@ -186,7 +202,7 @@ func (n *c05net) deliver(from int, to peer.ID, frame []byte) {
 	n.sent = append(n.sent, c05sent{from, ti, frame, dropped})
 	n.mu.Unlock()
 	if !dropped {
-		n.nodes[ti].host.inject(n.nodes[from].host.id, frame)
+		n.q <- c05sent{From: from, To: ti, Frame: frame}
 	}
 }
 
@@ -368,6 +384,7 @@ func c05newNode(ctx context.Context, e *c05env, idx int, net *c05net, genesis ti
 // ---------------------------------------------------------------------------------------------------------
 
 type c05live struct {
+	doneBy    map[core.Duty][c05n]bool
 	sent      []c05sent
 	delivered [c05n]map[core.Duty][][]byte
 	done      map[core.Duty]int
@@ -375,7 +392,28 @@ type c05live struct {
 	err       string
 }
 
-func c05liveRun(t *testing.T, e *c05env) (res c05live) {
+// c05byzSwap: member 3 is Byzantine in the mildest way: it follows the protocol, but every value it attaches is
+// re-labelled as another registered message type (same bytes, hence the same hash).
+func c05byzSwap(from int, frame []byte) []byte {
+	if from != 3 {
+		return frame
+	}
+	m, err := c05unframe(frame)
+	if err != nil {
+		return frame
+	}
+	for _, v := range m.GetValues() {
+		v.TypeUrl = "type.googleapis.com/core.corepb.v1.Duty"
+	}
+	b, err := proto.Marshal(m)
+	if err != nil {
+		return frame
+	}
+	return c05frame(b)
+}
+
+func c05liveRun(t *testing.T, e *c05env, rewr func(int, []byte) []byte) (res c05live) {
+	res.doneBy = map[core.Duty][c05n]bool{}
 	runtime.VerifSetMapRot(true, 0)
 	runtime.VerifSetSelMode(1)
 	defer runtime.VerifSetMapRot(false, 0)
@@ -385,7 +423,8 @@ func c05liveRun(t *testing.T, e *c05env) (res c05live) {
 		ctx, cancel := context.WithCancel(context.Background())
 		// start of duty D (slot start + 1/3 slot for attesters) = now + 100ms
 		genesis := time.Now().Add(100*time.Millisecond - c05slotDur/3 - time.Duration(c05slot)*c05slotDur)
-		net := &c05net{}
+		net := &c05net{q: make(chan c05sent, 4096), rewr: rewr}
+		go net.dispatch(ctx)
 		// Scenario: round 1 — all COMMITs are lost, member 3 receives no PREPARE: members 0..2 prepare the
 		// leader's value, member 3 does not; everybody times out; round 2 — leader re-proposes the prepared value.
 		net.drop = func(_, to int, m *pbv1.QBFTConsensusMsg) bool {
@@ -411,8 +450,13 @@ func c05liveRun(t *testing.T, e *c05env) (res c05live) {
 		}
 		for _, duty := range []core.Duty{c05D, c05D2} {
 			done := make(chan error, c05n)
+			var by [c05n]bool
 			for i, nd := range net.nodes {
-				go func() { done <- nd.c.Propose(ctx, duty, e.sets[duty][i]) }()
+				go func() {
+					err := nd.c.Propose(ctx, duty, e.sets[duty][i])
+					by[i] = err == nil
+					done <- err
+				}()
 			}
 			horizon := time.After(60 * time.Second)
 		wait:
@@ -427,6 +471,7 @@ func c05liveRun(t *testing.T, e *c05env) (res c05live) {
 				}
 			}
 			synctest.Wait()
+			res.doneBy[duty] = by
 		}
 		cancel()
 		synctest.Wait()
@@ -691,6 +736,7 @@ func (e *c05env) judge(alt *pbv1.QBFTConsensusMsg, excused *int) (must bool, rul
 		det  string
 	}
 	have := map[tv]bool{}
+	haveBytes := map[string]bool{}
 	for _, v := range alt.GetValues() {
 		if v == nil {
 			continue
@@ -700,10 +746,15 @@ func (e *c05env) judge(alt *pbv1.QBFTConsensusMsg, excused *int) (must bool, rul
 			continue
 		}
 		have[tv{inner.ProtoReflect().Descriptor().FullName(), string(c05det(inner))}] = true
+		haveBytes[string(c05det(inner))] = true
 	}
 	for _, q := range append([]*pbv1.QBFTMsg{m}, alt.GetJustification()...) {
 		for _, h := range c05refHashes(q) {
 			kv := e.table[h]
+			if kv != nil && !have[tv{kv.name, string(kv.det)}] && haveBytes[string(kv.det)] {
+				// the bytes are there, but as a message of another type than the one that was proposed and hashed
+				return true, "value-type-substituted", "values"
+			}
 			if kv == nil || !have[tv{kv.name, string(kv.det)}] {
 				return true, "hash-unresolvable", "values"
 			}
@@ -874,6 +925,7 @@ func (x *c05x) emit(id, class string, payload []byte) {
 	if o.Bad == "" {
 		return
 	}
+	x.r.Count("violating:"+class, 1)
 	// confirm three times on fresh receivers
 	for k := 0; k < 3; k++ {
 		rc, err := c05newRcv(x.e)
@@ -1212,5 +1264,827 @@ func (x *c05x) famResigned() {
 				x.emitMsg("resigned="+lf.name()+":"+a.label, "resigned="+lf.name()+":"+a.label, alt)
 			}
 		}
+	}
+}
+
+// ---------------------------------------------------------------------------------------------------------
+// family "values": the referenced values
+// ---------------------------------------------------------------------------------------------------------
+
+func (e *c05env) otherValues(base *pbv1.QBFTConsensusMsg) (out []*c05val) {
+	ref := map[[32]byte]bool{}
+	for _, q := range append([]*pbv1.QBFTMsg{base.GetMsg()}, base.GetJustification()...) {
+		for _, h := range c05refHashes(q) {
+			ref[h] = true
+		}
+	}
+	var hs [][32]byte
+	for h := range e.table {
+		if !ref[h] {
+			hs = append(hs, h)
+		}
+	}
+	sort.Slice(hs, func(i, j int) bool { return bytes.Compare(hs[i][:], hs[j][:]) < 0 })
+	for _, h := range hs {
+		out = append(out, e.table[h])
+	}
+	return out
+}
+
+var c05swapTypes = []string{"core.corepb.v1.Duty", "core.corepb.v1.ParSignedDataSet", "core.corepb.v1.PriorityResult",
+	"core.corepb.v1.QBFTMsg", "core.corepb.v1.QBFTConsensusMsg", "google.protobuf.Empty", "google.protobuf.Any", "google.protobuf.Timestamp"}
+
+func (x *c05x) famValues(thorough bool) {
+	base := x.base.msg
+	others := x.e.otherValues(base)
+	limit := 2 * (len(base.GetJustification()) + 1)
+	for k, v := range base.GetValues() {
+		tag := fmt.Sprintf("values[%d]", k)
+		with := func(id string, a *anypb.Any) {
+			alt := c05clone(base)
+			alt.Values[k] = a
+			x.emitMsg(tag+":"+id, "values:"+c05flipClass(id), alt)
+		}
+		alt := c05clone(base)
+		alt.Values = append(alt.Values[:k:k], alt.Values[k+1:]...)
+		x.emitMsg(tag+":removed", "values:removed", alt)
+		if len(base.GetValues()) < limit {
+			alt = c05clone(base)
+			alt.Values = append(alt.Values, proto.Clone(v).(*anypb.Any))
+			x.emitMsg(tag+":duplicated", "values:duplicated", alt)
+		}
+		for i, o := range others {
+			if !thorough && i >= 2 {
+				break
+			}
+			with(fmt.Sprintf("replaced-by-valid[%d]", i), o.any)
+		}
+		for _, name := range c05swapTypes {
+			if _, err := protoregistry.GlobalTypes.FindMessageByName(protoreflect.FullName(name)); err != nil {
+				continue
+			}
+			with("type-url="+name, &anypb.Any{TypeUrl: "type.googleapis.com/" + name, Value: v.GetValue()})
+		}
+		with("type-url-prefix", &anypb.Any{TypeUrl: "example.org/x/" + v.GetTypeUrl()[strings.LastIndexByte(v.GetTypeUrl(), '/')+1:], Value: v.GetValue()})
+		with("type-url-emptied", &anypb.Any{Value: v.GetValue()})
+		with("value-emptied", &anypb.Any{TypeUrl: v.GetTypeUrl()})
+		if n := len(v.GetValue()); n > 0 {
+			with("value-truncated", &anypb.Any{TypeUrl: v.GetTypeUrl(), Value: v.GetValue()[:n-1]})
+		}
+		with("value-extended", &anypb.Any{TypeUrl: v.GetTypeUrl(), Value: append(append([]byte(nil), v.GetValue()...), 0)})
+		// every single-field change of the inner UnsignedDataSet, packed again as a well-formed Any
+		inner := new(pbv1.UnsignedDataSet)
+		if err := v.UnmarshalTo(inner); err != nil {
+			continue
+		}
+		repack := func(id string, f func(s *pbv1.UnsignedDataSet)) {
+			s := proto.Clone(inner).(*pbv1.UnsignedDataSet)
+			f(s)
+			a, err := anypb.New(s)
+			if err != nil {
+				return
+			}
+			with(id, a)
+		}
+		var keys []string
+		for pk := range inner.GetSet() {
+			keys = append(keys, pk)
+		}
+		sort.Strings(keys)
+		for ki, pk := range keys {
+			data := inner.GetSet()[pk]
+			kt := fmt.Sprintf("inner[%d]", ki)
+			repack(kt+".key-changed", func(s *pbv1.UnsignedDataSet) { delete(s.Set, pk); s.Set[pk[:len(pk)-1]+"0"] = data; s.Set[pk[:len(pk)-1]+"1"] = data })
+			repack(kt+".removed", func(s *pbv1.UnsignedDataSet) { delete(s.Set, pk) })
+			repack(kt+".data-emptied", func(s *pbv1.UnsignedDataSet) { s.Set[pk] = nil })
+			repack(kt+".data-truncated", func(s *pbv1.UnsignedDataSet) { s.Set[pk] = data[:len(data)-1] })
+			repack(kt+".data-extended", func(s *pbv1.UnsignedDataSet) { s.Set[pk] = append(append([]byte(nil), data...), ' ') })
+			step := 1
+			if !thorough {
+				step = (len(data) + 15) / 16
+			}
+			for pos := 0; pos < len(data); pos += step {
+				for _, mask := range []byte{0x01, 0x80} {
+					if !thorough && mask != 0x01 {
+						continue
+					}
+					repack(fmt.Sprintf("%s.data-flip[%d]^%02x", kt, pos, mask), func(s *pbv1.UnsignedDataSet) {
+						b := append([]byte(nil), data...)
+						b[pos] ^= mask
+						s.Set[pk] = b
+					})
+				}
+			}
+		}
+		repack("inner.entry-added", func(s *pbv1.UnsignedDataSet) { s.Set["0xadded"] = []byte("{}") })
+	}
+	// the list as a whole
+	if len(others) > 0 && len(base.GetValues()) < limit {
+		alt := c05clone(base)
+		alt.Values = append(alt.Values, others[0].any)
+		x.emitMsg("values:unreferenced-valid-appended", "values:unreferenced-valid-appended", alt)
+		rev := c05clone(alt)
+		for i, j := 0, len(rev.Values)-1; i < j; i, j = i+1, j-1 {
+			rev.Values[i], rev.Values[j] = rev.Values[j], rev.Values[i]
+		}
+		x.emitMsg("values:reordered", "values:reordered", rev)
+		alt = c05clone(base)
+		alt.Values = append(alt.Values, &anypb.Any{})
+		x.emitMsg("values:empty-any-appended", "values:empty-any-appended", alt)
+		alt = c05clone(base)
+		alt.Values = append(alt.Values, &anypb.Any{TypeUrl: others[0].any.GetTypeUrl(), Value: []byte{0xff}})
+		x.emitMsg("values:garbage-any-appended", "values:garbage-any-appended", alt)
+	}
+	if len(base.GetValues()) > 0 {
+		alt := c05clone(base)
+		alt.Values = nil
+		x.emitMsg("values:all-removed", "values:all-removed", alt)
+	}
+}
+
+// ---------------------------------------------------------------------------------------------------------
+// family "subst": substitutions between messages, signers and duties
+// ---------------------------------------------------------------------------------------------------------
+
+type c05mat struct {
+	corpus  []*c05entry // duty D
+	corpus2 []*c05entry // duty D2
+}
+
+func c05find(l []*c05entry, kind string) *c05entry {
+	for _, en := range l {
+		if en.Kind == kind {
+			return en
+		}
+	}
+	return nil
+}
+
+// restamp moves the message and all its justifications to another duty, each signed again by its member.
+func (e *c05env) restamp(base *pbv1.QBFTConsensusMsg, slot uint64, typ int32, justToo bool) *pbv1.QBFTConsensusMsg {
+	alt := c05clone(base)
+	alt.Msg.Duty = &pbv1.Duty{Slot: slot, Type: typ}
+	alt.Msg = e.sign(alt.Msg, alt.Msg.GetPeerIdx())
+	if justToo {
+		for i, j := range alt.Justification {
+			j.Duty = &pbv1.Duty{Slot: slot, Type: typ}
+			alt.Justification[i] = e.sign(j, j.GetPeerIdx())
+		}
+	}
+	return alt
+}
+
+func (x *c05x) famSubst(mat c05mat, thorough bool) {
+	e, base := x.e, x.base.msg
+	limit := 2 * (len(base.GetJustification()) + 1)
+	// (1) a justification of another duty's instance (with its value, so that only the duty rule is broken)
+	for _, kind := range []string{"PREPARE", "COMMIT", "PRE_PREPARE"} {
+		src := c05find(mat.corpus2, kind)
+		if src == nil {
+			continue
+		}
+		alt := c05clone(base)
+		alt.Justification = append(alt.Justification, proto.Clone(src.msg.GetMsg()).(*pbv1.QBFTMsg))
+		alt.Values = append(alt.Values, src.msg.GetValues()...)
+		x.emitMsg("just-appended-from-other-duty:"+src.Key, "subst:just-from-other-duty", alt)
+		if len(base.GetJustification()) > 0 {
+			alt = c05clone(base)
+			alt.Justification[len(alt.Justification)-1] = proto.Clone(src.msg.GetMsg()).(*pbv1.QBFTMsg)
+			if len(alt.Values) < limit {
+				alt.Values = append(alt.Values, src.msg.GetValues()...)
+			}
+			x.emitMsg("just-replaced-from-other-duty:"+src.Key, "subst:just-from-other-duty", alt)
+		}
+	}
+	// the other direction: a message of D2 justified by messages of D
+	if src := c05find(mat.corpus2, "PREPARE"); src != nil && len(base.GetJustification()) > 0 {
+		alt := c05clone(src.msg)
+		alt.Justification = append(alt.Justification, base.GetJustification()...)
+		alt.Values = append(alt.Values, base.GetValues()...)
+		x.emitMsg("other-duty-msg-with-these-justifications", "subst:just-from-other-duty", alt)
+	}
+	// a justification taken from another message of the same instance: authentic, allowed
+	for _, src := range mat.corpus {
+		if src.Kind == "PREPARE" && src.msg.GetMsg().GetRound() == 1 && len(base.GetValues()) > 0 {
+			alt := c05clone(base)
+			alt.Justification = append(alt.Justification, proto.Clone(src.msg.GetMsg()).(*pbv1.QBFTMsg))
+			x.emitMsg("just-appended-from-same-duty:"+src.Key, "subst:just-from-same-duty", alt)
+			break
+		}
+	}
+	// (2) signed by another member's key, with and without naming that member
+	for k := int64(0); k < c05n; k++ {
+		if k == base.GetMsg().GetPeerIdx() {
+			continue
+		}
+		alt := c05clone(base)
+		alt.Msg = e.sign(alt.Msg, k)
+		x.emitMsg(fmt.Sprintf("msg-signed-by-member-%d-not-named", k), "subst:msg-signed-by-other-key", alt)
+		alt = c05clone(base)
+		alt.Msg.PeerIdx = k
+		alt.Msg = e.sign(alt.Msg, k)
+		x.emitMsg(fmt.Sprintf("msg-signed-by-member-%d-and-named", k), "subst:msg-signed-by-other-key-and-named", alt)
+		for i, j := range base.GetJustification() {
+			if k == j.GetPeerIdx() || (!thorough && i > 0) {
+				continue
+			}
+			alt = c05clone(base)
+			alt.Justification[i] = e.sign(alt.Justification[i], k)
+			x.emitMsg(fmt.Sprintf("justification[%d]-signed-by-member-%d-not-named", i, k), "subst:just-signed-by-other-key", alt)
+		}
+	}
+	// a key outside the cluster
+	{
+		var b [32]byte
+		b[0], b[31] = 0x05, 0x05
+		s, err := signMsg(base.GetMsg(), k1.PrivKeyFromBytes(b[:]))
+		if err == nil {
+			alt := c05clone(base)
+			alt.Msg = s
+			x.emitMsg("msg-signed-by-foreign-key", "subst:msg-signed-by-foreign-key", alt)
+		}
+	}
+	// (3) signatures swapped between messages
+	n := 0
+	for _, src := range append(append([]*c05entry(nil), mat.corpus...), mat.corpus2...) {
+		if src.Key == x.base.Key && core.DutyFromProto(src.msg.GetMsg().GetDuty()) == c05D {
+			continue
+		}
+		if !thorough && n >= 3 {
+			break
+		}
+		n++
+		alt := c05clone(base)
+		alt.Msg.Signature = src.msg.GetMsg().GetSignature()
+		x.emitMsg(fmt.Sprintf("msg-signature-from:%v/%s", core.DutyFromProto(src.msg.GetMsg().GetDuty()).Slot, src.Key), "subst:msg-signature-swapped", alt)
+	}
+	for i, j := range base.GetJustification() {
+		alt := c05clone(base)
+		alt.Justification[i].Signature = base.GetMsg().GetSignature()
+		x.emitMsg(fmt.Sprintf("justification[%d]-signature-from-msg", i), "subst:just-signature-from-msg", alt)
+		alt = c05clone(base)
+		alt.Msg.Signature = j.GetSignature()
+		x.emitMsg(fmt.Sprintf("msg-signature-from-justification[%d]", i), "subst:msg-signature-from-just", alt)
+		k := (i + 1) % len(base.GetJustification())
+		alt = c05clone(base)
+		alt.Justification[i].Signature, alt.Justification[k].Signature = alt.Justification[k].Signature, alt.Justification[i].Signature
+		x.emitMsg(fmt.Sprintf("justification[%d]<->[%d]-signatures", i, k), "subst:just-signatures-swapped", alt)
+	}
+	// justifications reordered / one dropped / one doubled: still authentic
+	if nj := len(base.GetJustification()); nj > 1 {
+		alt := c05clone(base)
+		alt.Justification[0], alt.Justification[nj-1] = alt.Justification[nj-1], alt.Justification[0]
+		x.emitMsg("justifications-reordered", "subst:justifications-reordered", alt)
+		alt = c05clone(base)
+		alt.Justification = alt.Justification[:nj-1]
+		x.emitMsg("justification-dropped", "subst:justification-dropped", alt)
+	}
+	// a justification carrying its own (nested) content is not expressible on the wire; the main message used as its own justification:
+	{
+		alt := c05clone(base)
+		alt.Justification = append(alt.Justification, proto.Clone(base.GetMsg()).(*pbv1.QBFTMsg))
+		x.emitMsg("msg-as-own-justification", "subst:msg-as-own-justification", alt)
+	}
+	// (4) correctly signed messages for other duties
+	type dd struct {
+		name string
+		slot uint64
+		typ  int32
+	}
+	last := uint64((c05slot/c05spe+3)*c05spe - 1)
+	for _, d := range []dd{
+		{"expired", c05Dexp.Slot, int32(c05Dexp.Type)}, {"far-future", c05Dfar.Slot, int32(c05Dfar.Type)},
+		{"type-0", c05slot, 0}, {"type-14", c05slot, 14}, {"type--1", c05slot, -1}, {"type-max", c05slot, math.MaxInt32},
+		{"other-allowed", c05D2.Slot, int32(c05D2.Type)}, {"proposer-same-slot", c05slot, int32(core.DutyProposer)},
+		{"last-allowed-slot", last, int32(core.DutyAttester)}, {"first-gated-slot", last + 1, int32(core.DutyAttester)},
+		{"last-expired-slot", c05slot - 32, int32(core.DutyAttester)}, {"first-unexpired-slot", c05slot - 31, int32(core.DutyAttester)},
+		{"slot-0", 0, int32(core.DutyAttester)}, {"slot-max", math.MaxUint64, int32(core.DutyAttester)},
+		{"exit-exempt", c05slot, int32(core.DutyExit)},
+	} {
+		x.emitMsg("duty="+d.name, "subst:duty="+d.name, e.restamp(base, d.slot, d.typ, true))
+		if len(base.GetJustification()) > 0 {
+			x.emitMsg("duty="+d.name+"(msg-only)", "subst:duty="+d.name+"(msg-only)", e.restamp(base, d.slot, d.typ, false))
+		}
+	}
+}
+
+// ---------------------------------------------------------------------------------------------------------
+// family "limits": justification and value counts, peer index, round, prepared round
+// ---------------------------------------------------------------------------------------------------------
+
+func (x *c05x) famLimits(mat c05mat) {
+	e, base := x.e, x.base.msg
+	pad := c05find(mat.corpus, "ROUND_CHANGE") // an authentic message of duty D that refers to no value
+	others := e.otherValues(base)
+	if pad != nil {
+		for _, nj := range []int{2*c05n - 1, 2 * c05n, 2*c05n + 1, 2*c05n + 2, 3 * c05n} {
+			if nj < len(base.GetJustification()) {
+				continue
+			}
+			alt := c05clone(base)
+			for len(alt.Justification) < nj {
+				alt.Justification = append(alt.Justification, proto.Clone(pad.msg.GetMsg()).(*pbv1.QBFTMsg))
+			}
+			x.emitMsg(fmt.Sprintf("justifications=%d", nj), fmt.Sprintf("limits:justifications=2n%+d", nj-2*c05n), alt)
+			// and the value list filled up to / beyond its limit at the same time
+			for _, dv := range []int{0, 1} {
+				alt2 := c05clone(alt)
+				for i := 0; len(alt2.Values) < 2*(nj+1)+dv && len(others) > 0; i++ {
+					alt2.Values = append(alt2.Values, others[i%len(others)].any)
+				}
+				x.emitMsg(fmt.Sprintf("justifications=%d,values=%d", nj, len(alt2.Values)), fmt.Sprintf("limits:justifications=2n%+d,values=max%+d", nj-2*c05n, dv), alt2)
+			}
+		}
+	}
+	if len(others) > 0 {
+		lim := 2 * (len(base.GetJustification()) + 1)
+		for _, nv := range []int{lim - 1, lim, lim + 1, lim + 2, 2*lim + 1} {
+			if nv < len(base.GetValues()) {
+				continue
+			}
+			alt := c05clone(base)
+			for i := 0; len(alt.Values) < nv; i++ {
+				alt.Values = append(alt.Values, others[i%len(others)].any)
+			}
+			x.emitMsg(fmt.Sprintf("values=%d", nv), fmt.Sprintf("limits:values=max%+d", nv-lim), alt)
+			// the same count made of copies of the referenced value / of empty Anys
+			alt = c05clone(base)
+			for len(alt.Values) < nv {
+				if len(base.GetValues()) > 0 {
+					alt.Values = append(alt.Values, proto.Clone(base.GetValues()[0]).(*anypb.Any))
+				} else {
+					alt.Values = append(alt.Values, others[0].any)
+				}
+			}
+			x.emitMsg(fmt.Sprintf("values=%d(copies)", nv), fmt.Sprintf("limits:values=max%+d(copies)", nv-lim), alt)
+		}
+	}
+	// field limits on correctly signed messages (the signer is the member originally named when the index is unknown)
+	orig := base.GetMsg().GetPeerIdx()
+	set := func(id string, f func(m *pbv1.QBFTMsg)) {
+		alt := c05clone(base)
+		f(alt.Msg)
+		alt.Msg = e.sign(alt.Msg, orig)
+		x.emitMsg(id, "limits:"+id, alt)
+		for i := range base.GetJustification() {
+			if i > 0 {
+				break
+			}
+			alt = c05clone(base)
+			f(alt.Justification[i])
+			alt.Justification[i] = e.sign(alt.Justification[i], base.GetJustification()[i].GetPeerIdx())
+			x.emitMsg(fmt.Sprintf("justification[%d].%s", i, id), "limits:justification."+id, alt)
+		}
+	}
+	set("peer_idx=n", func(m *pbv1.QBFTMsg) { m.PeerIdx = c05n })
+	set("peer_idx=-1", func(m *pbv1.QBFTMsg) { m.PeerIdx = -1 })
+	set("peer_idx=max", func(m *pbv1.QBFTMsg) { m.PeerIdx = math.MaxInt64 })
+	set("round=0", func(m *pbv1.QBFTMsg) { m.Round = 0 })
+	set("round=-1", func(m *pbv1.QBFTMsg) { m.Round = -1 })
+	set("prepared_round=-1", func(m *pbv1.QBFTMsg) { m.PreparedRound = -1 })
+	set("prepared_round=min", func(m *pbv1.QBFTMsg) { m.PreparedRound = math.MinInt64 })
+	set("prepared_round=round", func(m *pbv1.QBFTMsg) { m.PreparedRound = m.Round })
+	set("prepared_round=round+1", func(m *pbv1.QBFTMsg) { m.PreparedRound = m.Round + 1 })
+	set("type=0", func(m *pbv1.QBFTMsg) { m.Type = 0 })
+	set("type=6", func(m *pbv1.QBFTMsg) { m.Type = 6 })
+}
+
+// ---------------------------------------------------------------------------------------------------------
+// family "raw": byte strings handed to the real registered stream handler
+// ---------------------------------------------------------------------------------------------------------
+
+const c05maxFrame = 32 * 1024 * 1024 // the documented cap of a consensus frame
+
+// rawFrame feeds arbitrary stream content. Only content that is one complete frame of an acceptable message
+// may change the state.
+func (x *c05x) rawFrame(id, class string, stream []byte) {
+	if x.only != "" && id != x.only {
+		return
+	}
+	e, c := x.e, x.rc.nd.c
+	run := func(rc *c05rcv) (changed bool, must bool, rule string) {
+		must, rule = true, "not-a-frame"
+		if l, k := binary.Uvarint(stream); k > 0 && l <= c05maxFrame && uint64(len(stream)-k) >= l {
+			if dec, err := c05decode(stream[k : k+int(l)]); err == nil {
+				var ex int
+				must, rule, _ = e.judge(dec, &ex)
+			} else {
+				rule = "undecodable"
+			}
+		} else if k > 0 && l > c05maxFrame {
+			rule = "frame-too-large"
+		}
+		before := c05snap(rc.nd.c)
+		rc.nd.host.inject(e.peers[0].ID, stream)
+		changed = c05snap(rc.nd.c) != before
+		c05drain(rc.nd.c)
+		return changed, must, rule
+	}
+	_ = c
+	changed, must, rule := run(x.rc)
+	x.r.Eval(x.base.Kind + ":" + class)
+	x.r.Steps(1)
+	x.r.Count("raw_streams", 1)
+	if !changed {
+		x.r.Count("unchanged_state_checks", 1)
+	} else {
+		x.r.Count("accepted", 1)
+	}
+	if must {
+		x.r.Count("must_reject:"+rule, 1)
+	}
+	if !(changed && must) {
+		return
+	}
+	for k := 0; k < 3; k++ {
+		rc, err := c05newRcv(e)
+		if err != nil {
+			return
+		}
+		ch2, _, _ := run(rc)
+		rc.cancel()
+		if !ch2 {
+			x.r.Unconfirmed(x.base.Key + " raw " + id)
+			return
+		}
+	}
+	x.r.Violation(fmt.Sprintf("kind=accepted-inauthentic rule=%s where=frame msgkind=%s", rule, x.base.Kind),
+		fmt.Sprintf("stream content %s (%d bytes) changed the instance state although it is not an acceptable frame (%s); corpus message %s", id, len(stream), rule, x.base.Key),
+		c05case{Key: x.base.Key, Family: x.family, ID: id, Base: base64.StdEncoding.EncodeToString(x.base.wire)})
+}
+
+func (x *c05x) famRaw() {
+	frame := c05frame(x.base.wire)
+	for k := 0; k < len(frame); k++ {
+		x.rawFrame(fmt.Sprintf("frame[:%d]", k), "raw:frame-truncated", frame[:k])
+	}
+	x.rawFrame("frame+1", "raw:frame-plus-trailing-byte", append(append([]byte(nil), frame...), 0)) // first frame is read, the rest ignored
+	// the payload cut at every length, framed correctly (what a sender that drops the tail would produce)
+	x.stream = true
+	for k := 0; k < len(x.base.wire); k++ {
+		x.emit(fmt.Sprintf("payload[:%d]", k), "raw:payload-truncated", x.base.wire[:k])
+	}
+	x.stream = false
+	// length prefix beyond the cap in front of the valid payload
+	x.rawFrame("length=cap+1", "raw:length-beyond-cap", append(binary.AppendUvarint(nil, c05maxFrame+1), x.base.wire...))
+	x.rawFrame("length=2^63", "raw:length-beyond-cap", append(binary.AppendUvarint(nil, 1<<63), x.base.wire...))
+}
+
+// famRawShort: all byte strings of length <= 2 whose first byte is in [lo,hi).
+func (x *c05x) famRawShort(lo, hi int) {
+	if lo == 0 {
+		x.rawFrame("bytes=", "raw:short", nil)
+	}
+	for a := lo; a < hi; a++ {
+		x.rawFrame(fmt.Sprintf("bytes=%02x", a), "raw:short", []byte{byte(a)})
+		for b := 0; b < 256; b++ {
+			x.rawFrame(fmt.Sprintf("bytes=%02x%02x", a, b), "raw:short", []byte{byte(a), byte(b)})
+		}
+	}
+}
+
+// famOversize: an otherwise acceptable message (valid COMMIT plus one unreferenced value within the count limit)
+// whose frame is larger than the cap, and the same with a value that keeps it below the cap.
+func (x *c05x) famOversize() {
+	for _, sz := range []int{1 << 20, c05maxFrame - 2048, c05maxFrame + 1} {
+		big, err := anypb.New(&pbv1.UnsignedDataSet{Set: map[string][]byte{"0xbig": make([]byte, sz)}})
+		if err != nil {
+			x.r.Note("cannot build the oversize value")
+			return
+		}
+		alt := c05clone(x.base.msg)
+		alt.Values = append(alt.Values, big)
+		b, err := proto.Marshal(alt)
+		if err != nil {
+			return
+		}
+		cls := "raw:large-frame-below-cap"
+		if len(b) > c05maxFrame {
+			cls = "raw:large-frame-above-cap"
+		}
+		x.rawFrame(fmt.Sprintf("extra-value=%d", sz), cls, c05frame(b))
+	}
+}
+
+// ---------------------------------------------------------------------------------------------------------
+// second half: the value handed to the subscribers is exactly the proposed data whose hash was agreed
+// ---------------------------------------------------------------------------------------------------------
+
+func c05checkDecided(e *c05env, live c05live, count func(string, int), byz bool) (sig, desc string) {
+	for _, duty := range []core.Duty{c05D, c05D2} {
+		// the agreed hash: the value hash of the COMMITs of the highest round
+		var agreed []byte
+		var round int64
+		for _, s := range live.sent {
+			m, err := c05unframe(s.Frame)
+			if err != nil || core.DutyFromProto(m.GetMsg().GetDuty()) != duty || qbft.MsgType(m.GetMsg().GetType()) != qbft.MsgCommit {
+				continue
+			}
+			if m.GetMsg().GetRound() >= round {
+				round, agreed = m.GetMsg().GetRound(), m.GetMsg().GetValueHash()
+			}
+		}
+		lead := leaderIndependent(duty, 1)
+		for i := 0; i < c05n; i++ {
+			got := live.delivered[i][duty]
+			if byz && i == 3 {
+				continue // the Byzantine member's own output is not judged
+			}
+			if len(got) == 0 {
+				if live.doneBy[duty][i] {
+					return "kind=decided-but-proposal-not-delivered", fmt.Sprintf("duty %v: member %d decided (Propose returned nil) but its subscriber never received the proposed data", duty, i)
+				}
+				count("subscriber_not_called", 1)
+				continue
+			}
+			for _, b := range got {
+				count("subscriber_payloads_compared", 1)
+				if !bytes.Equal(b, e.props[duty][lead]) {
+					who := -1
+					for k, p := range e.props[duty] {
+						if bytes.Equal(p, b) {
+							who = k
+						}
+					}
+					return "kind=decided-value-differs", fmt.Sprintf("duty %v: member %d's subscriber got a payload that is not byte-identical to the proposal of the leader (member %d); it equals the proposal of member %d (-1: nobody's)", duty, i, lead, who)
+				}
+				if len(agreed) == 32 {
+					if kv := e.table[[32]byte(agreed)]; kv == nil || !bytes.Equal(kv.det, b) {
+						return "kind=decided-value-differs", fmt.Sprintf("duty %v: member %d's subscriber got a payload that is not the value of the agreed hash %x", duty, i, agreed)
+					}
+				}
+			}
+			if len(got) > 1 {
+				return "kind=decided-twice", fmt.Sprintf("duty %v: member %d's subscriber was called %d times", duty, i, len(got))
+			}
+		}
+	}
+	return "", ""
+}
+
+// the messages of the scripted scenario for duty D (see c05liveRun), in corpus order
+const c05expectedKeys = "PRE_PREPARE/r1/p0 PRE_PREPARE_J/r3/p2 " +
+	"PREPARE/r1/p0 PREPARE/r1/p1 PREPARE/r1/p2 PREPARE/r1/p3 PREPARE/r3/p0 PREPARE/r3/p1 PREPARE/r3/p2 PREPARE/r3/p3 " +
+	"COMMIT/r1/p0 COMMIT/r1/p1 COMMIT/r1/p2 COMMIT/r3/p0 COMMIT/r3/p1 COMMIT/r3/p2 COMMIT/r3/p3 " +
+	"ROUND_CHANGE/r2/p3 ROUND_CHANGE/r3/p3 " +
+	"ROUND_CHANGE_P/r2/p0 ROUND_CHANGE_P/r2/p1 ROUND_CHANGE_P/r2/p2 ROUND_CHANGE_P/r3/p0 ROUND_CHANGE_P/r3/p1 ROUND_CHANGE_P/r3/p2 " +
+	"DECIDED/r3/p0"
+
+func leaderIndependent(d core.Duty, round int64) int {
+	return int((int64(d.Slot) + int64(d.Type) + round) % c05n)
+}
+
+// ---------------------------------------------------------------------------------------------------------
+// driver
+// ---------------------------------------------------------------------------------------------------------
+
+func (x *c05x) runFamily(fam string, mat c05mat, thorough bool) {
+	x.family = fam
+	// non-vacuity: the unaltered message is accepted by this fresh receiver
+	if x.only == "" {
+		o := x.e.try(x.rc, x.base.wire, false)
+		x.r.Eval(x.base.Kind + ":unaltered")
+		if o.Accepted && o.Bad == "" && !o.Must {
+			x.r.Count("unaltered_accepted", 1)
+		} else {
+			x.r.Count("unaltered_not_accepted", 1)
+			x.r.Note(fmt.Sprintf("the unaltered corpus message %s was not accepted by a fresh receiver (must=%v rule=%s err=%s %s)", x.base.Key, o.Must, o.Rule, o.Err, o.Bad))
+		}
+	}
+	switch {
+	case strings.HasPrefix(fam, "wire^"):
+		var mask byte
+		fmt.Sscanf(fam, "wire^%02x", &mask)
+		x.famWire(mask)
+	case fam == "fields":
+		x.famFields(thorough)
+	case fam == "resigned":
+		x.famResigned()
+	case fam == "values":
+		x.famValues(thorough)
+	case fam == "subst":
+		x.famSubst(mat, thorough)
+	case fam == "limits":
+		x.famLimits(mat)
+	case fam == "raw":
+		x.famRaw()
+	case fam == "oversize":
+		x.famOversize()
+	case strings.HasPrefix(fam, "raw-short/"):
+		var lo, hi int
+		fmt.Sscanf(fam, "raw-short/%d-%d", &lo, &hi)
+		x.famRawShort(lo, hi)
+	}
+}
+
+func TestVerifC05(t *testing.T) {
+	log.InitConsoleForT(t, zapcore.AddSync(io.Discard))
+	r := enumx.New(t, "C05")
+	defer r.Finish()
+	thorough := enumx.Thorough()
+	e := c05newEnv(t)
+	// The scenario is scripted, deliveries are serialised and time is virtual, but goroutine preemption is not
+	// controlled: the run is repeated until it produced exactly the expected set of messages, so that every
+	// shard enumerates the same units.
+	var (
+		live            c05live
+		corpus, corpus2 []*c05entry
+		notes, notes2   []string
+	)
+	for attempt := 1; attempt <= 12; attempt++ {
+		live = c05liveRun(t, e, nil)
+		if live.err != "" {
+			r.NotExhaustive("cannot build the cluster: " + live.err)
+			return
+		}
+		corpus, notes = c05corpus(e, live, c05D, true)
+		corpus2, notes2 = c05corpus(e, live, c05D2, false)
+		var ks []string
+		for _, en := range corpus {
+			ks = append(ks, en.Key)
+		}
+		if strings.Join(ks, " ") == c05expectedKeys {
+			break
+		}
+		r.Count("live_run_repeated", 1)
+	}
+	for _, n := range append(notes, notes2...) {
+		r.Note(n)
+	}
+	mat := c05mat{corpus, corpus2}
+	// sanity of the registry: every justification seen on the wire was sent before as a main message
+	var keys []string
+	kinds := map[string]int{}
+	for _, en := range append(append([]*c05entry(nil), corpus...), corpus2...) {
+		var ex int
+		if must, rule, where := e.judge(en.msg, &ex); must && core.DutyFromProto(en.msg.GetMsg().GetDuty()) == c05D {
+			r.Note(fmt.Sprintf("harness: corpus message %s is not authentic for the oracle (%s at %s)", en.Key, rule, where))
+		}
+	}
+	for _, en := range corpus {
+		keys = append(keys, en.Key)
+		kinds[en.Kind]++
+	}
+	kh := sha256.Sum256([]byte(strings.Join(keys, "|")))
+	if strings.Join(keys, " ") != c05expectedKeys {
+		r.NotExhaustive("the live run did not produce the expected message set; got: " + strings.Join(keys, " "))
+	}
+	r.Count(fmt.Sprintf("corpus_keys_%d_%x", len(keys), kh[:4]), 1)
+	for _, k := range c05kinds {
+		if kinds[k] == 0 {
+			r.NotExhaustive("the live run produced no message of kind " + k)
+		}
+	}
+	r.Count("live_frames_sent", len(live.sent))
+	r.Count("live_decisions_D", live.done[c05D])
+	r.Count("live_decisions_D2", live.done[c05D2])
+
+	wireMasks := []byte{0x01, 0x80}
+	if thorough {
+		wireMasks = []byte{0x01, 0x02, 0x04, 0x08, 0x10, 0x20, 0x40, 0x80}
+	}
+	families := []string{"fields", "resigned", "values", "subst", "limits", "raw"}
+	for _, m := range wireMasks {
+		families = append(families, fmt.Sprintf("wire^%02x", m))
+	}
+
+	if r.ReplayPath != "" {
+		var c c05case
+		if err := r.ReplayCase(&c); err != nil {
+			t.Fatal(err)
+		}
+		if c.Family == "decided-byz" {
+			sig, desc := c05checkDecided(e, c05liveRun(t, e, c05byzSwap), r.Count, true)
+			fmt.Printf("replay decided-byz: %s %s\n", sig, desc)
+			if sig != "" {
+				r.Violation(sig+" cause=value-type-relabelling-member", desc, c)
+			}
+			return
+		}
+		if c.Family == "decided" {
+			sig, desc := c05checkDecided(e, live, r.Count, false)
+			fmt.Printf("replay decided: %s %s\n", sig, desc)
+			if sig != "" {
+				r.Violation(sig, desc, c)
+			}
+			return
+		}
+		raw, _ := base64.StdEncoding.DecodeString(c.Base)
+		m, err := c05decode(raw)
+		if err != nil {
+			t.Fatalf("replay: base message does not decode: %v", err)
+		}
+		for _, q := range append([]*pbv1.QBFTMsg{m.GetMsg()}, m.GetJustification()...) {
+			e.register(q, q.GetPeerIdx()) // the stored base message came out of a real run
+		}
+		rc, err := c05newRcv(e)
+		if err != nil {
+			t.Fatal(err)
+		}
+		defer rc.cancel()
+		x := &c05x{t: t, r: r, e: e, rc: rc, base: &c05entry{Key: c.Key, Kind: c05kind(m), msg: m, wire: raw}, only: c.ID}
+		x.runFamily(c.Family, mat, true)
+		if x.found != nil {
+			fmt.Printf("replay %s / %s / %s: %+v\n", c.Key, c.Family, c.ID, *x.found)
+		} else {
+			fmt.Printf("replay %s / %s / %s: alteration evaluated (see violations)\n", c.Key, c.Family, c.ID)
+		}
+		return
+	}
+
+	// unit: the decided values of the live run
+	if r.Mine() {
+		r.Eval("decided:payload-equals-leader-proposal")
+		if sig, desc := c05checkDecided(e, live, r.Count, false); sig != "" {
+			ok := true
+			for k := 0; k < 3; k++ {
+				e2 := c05newEnv(t)
+				if s2, _ := c05checkDecided(e2, c05liveRun(t, e2, nil), func(string, int) {}, false); s2 != sig {
+					ok = false
+				}
+			}
+			if ok {
+				r.Violation(sig, desc, c05case{Family: "decided"})
+			} else {
+				r.Unconfirmed("decided " + sig)
+			}
+		}
+	}
+
+	// unit: the same two instances with a member that re-labels the type of the values it forwards. Every frame it
+	// sends breaks the rule "values hash to the hashes referencing them" (c05judge: value-type-substituted); if
+	// receivers nevertheless take them, what the honest members hand to their subscribers is judged as above.
+	if r.Mine() {
+		r.Eval("decided:payload-equals-leader-proposal/value-type-relabelling-member")
+		lb := c05liveRun(t, e, c05byzSwap)
+		if sig, desc := c05checkDecided(e, lb, r.Count, true); sig != "" {
+			ok := true
+			for k := 0; k < 3; k++ {
+				if s2, _ := c05checkDecided(e, c05liveRun(t, e, c05byzSwap), func(string, int) {}, true); s2 != sig {
+					ok = false
+				}
+			}
+			if ok {
+				r.Violation(sig+" cause=value-type-relabelling-member", desc+"; scenario: member 3 attaches every value under the type name core.corepb.v1.Duty (same bytes, same hash)", c05case{Family: "decided-byz"})
+			} else {
+				r.Unconfirmed("decided-byz " + sig)
+			}
+		}
+	}
+
+	seenKind := map[string]bool{}
+	sampled := 0
+	for _, en := range corpus {
+		if !thorough && seenKind[en.Kind] {
+			continue
+		}
+		seenKind[en.Kind] = true
+		for _, fam := range families {
+			if !r.Mine() {
+				continue
+			}
+			if r.Expired() {
+				return
+			}
+			rc, err := c05newRcv(e)
+			if err != nil {
+				r.NotExhaustive("cannot build a receiver: " + err.Error())
+				return
+			}
+			x := &c05x{t: t, r: r, e: e, rc: rc, base: en}
+			x.runFamily(fam, mat, thorough)
+			rc.cancel()
+			if sampled < 2 {
+				sampled++
+				r.Sample(map[string]any{"corpus_message": c05describe(en), "family": fam})
+			}
+		}
+	}
+	// global units: short byte strings, oversize frames
+	commit := c05find(corpus, "COMMIT")
+	if commit == nil {
+		return
+	}
+	var glob []string
+	for lo := 0; lo < 256; lo += 32 {
+		glob = append(glob, fmt.Sprintf("raw-short/%d-%d", lo, lo+32))
+	}
+	glob = append(glob, "oversize")
+	for _, fam := range glob {
+		if !r.Mine() {
+			continue
+		}
+		if r.Expired() {
+			return
+		}
+		rc, err := c05newRcv(e)
+		if err != nil {
+			r.NotExhaustive("cannot build a receiver: " + err.Error())
+			return
+		}
+		x := &c05x{t: t, r: r, e: e, rc: rc, base: commit, only: ""}
+		x.family = fam
+		x.runFamily(fam, mat, thorough)
+		rc.cancel()
 	}
 }
